@@ -363,30 +363,80 @@ structure Ctx where
 
 def Ctx.req (c : Ctx) (f : Nat) : List Implicit := c.required.getD f []
 
-/-- `generate_user_call`: user arguments, then `append_arguments_for_globals(callee)` -/
+/-- the (single) default-argument item of a function belongs to its last defaulted parameter; the other
+    defaulted parameters have literal defaults (convention of the correspondence generator) -/
+def defaultItemOf (fd : Func) (k : Nat) : Option Item :=
+  let lastD := ((List.range fd.params.length).filter fun j => fd.params[j]? == some ParamMode.inDefault).getLast?
+  if lastD == some k then fd.items.find? fun it => match it.place with | .defaultArg _ => true | _ => false
+  else none
+
+/-- `generate_user_call`: the default expressions passed explicitly for the arguments a call left out — only when
+    the callee receives parameters for globals (`none` = a literal default) -/
+def filledDefaults (c : Ctx) (f : Nat) (nargs : Nat) : List (Option Item) :=
+  match c.prog.funcs[f]? with
+  | none => []
+  | some fd =>
+    if callSitesFillDefaults && !(c.req f).isEmpty then
+      -- `decl.params.iter().skip(arguments.len())`, keeping the parameters that have a default
+      (List.range (fd.params.length - nargs)).filterMap fun j =>
+        if fd.params[nargs + j]? == some ParamMode.inDefault then some (defaultItemOf fd (nargs + j)) else none
+    else []
+
+/-- names of the globals an expression `f(args…, implicit…)` mentions -/
+def plainCallGlobals (c : Ctx) (f : Nat) (args : List SrcArg) : List String :=
+  (args.filterMap fun a => a.map fun g => srcArgName c.prog (some g)) ++
+  ((c.req f).filter fun i => i.variant == globalVariant).map (implicitArgName c.prog)
+
+/-- how the correspondence harness prints a filled-in default: the global it mentions if there is exactly one -/
+def filledText (c : Ctx) : Option Item → String
+  | none => "_"
+  | some (.use _ g) => srcArgName c.prog (some g)
+  | some (.call _ j as) =>
+    match (plainCallGlobals c j as).eraseDups with
+    | [n] => n
+    | _ => "_"
+
+/-- `generate_user_call`: user arguments, defaults of omitted arguments (if the callee takes parameters for
+    globals), then `append_arguments_for_globals(callee)` -/
 def callArgList (c : Ctx) (f : Nat) (args : List SrcArg) : List String :=
-  args.map (srcArgName c.prog) ++ (c.req f).map (implicitArgName c.prog)
+  args.map (srcArgName c.prog) ++ (filledDefaults c f args.length).map (filledText c) ++
+    (c.req f).map (implicitArgName c.prog)
 
 /-- `generate_function_inner`: user parameters, the tag parameter of a trampoline target, then the parameters for
     `function_required_globals[f]` -/
 def paramList (c : Ctx) (f : Nat) (fd : Func) (trampolineTarget : Bool) : List String :=
   userParamNames fd.params ++ (if trampolineTarget then ["#tt"] else []) ++ (c.req f).map (implicitParamName c.prog)
 
-def callText (c : Ctx) (f : Nat) (args : List SrcArg) : String :=
-  let name := match c.prog.funcs[f]? with | some fd => fd.name | none => "?"
-  name ++ "(" ++ ",".intercalate (callArgList c f args) ++ ")"
+def funcName (c : Ctx) (f : Nat) : String :=
+  match c.prog.funcs[f]? with | some fd => fd.name | none => "?"
+
+/-- a call that is itself a (filled-in) default argument: the model covers the case where it passes all of its
+    own arguments; otherwise the text is marked `!nested` and the driver answers `unsupported` -/
+def nestedCallText (c : Ctx) (j : Nat) (as : List SrcArg) : String :=
+  if (filledDefaults c j as.length).isEmpty then
+    funcName c j ++ "(" ++ ",".intercalate (as.map (srcArgName c.prog) ++ (c.req j).map (implicitArgName c.prog)) ++ ")"
+  else "!nested"
+
+/-- the call expression followed by the calls inside the defaults that were filled in for it -/
+def callTexts (c : Ctx) (f : Nat) (args : List SrcArg) : List String :=
+  (funcName c f ++ "(" ++ ",".intercalate (callArgList c f args) ++ ")") ::
+  (filledDefaults c f args.length).filterMap fun d => match d with
+    | some (.call _ j as) => some (nestedCallText c j as)
+    | _ => none
 
 def callsText (c : Ctx) (items : List Item) : String :=
-  ";".intercalate (items.filterMap fun it => match it with
-    | .call _ f args => some (callText c f args)
-    | .use _ _ => none)
+  ";".intercalate (items.flatMap fun it => match it with
+    | .call _ f args => callTexts c f args
+    | .use _ _ => [])
 
 /-- the definitions `generate_function_and_trampoline` emits for a function with a body -/
 def defsText (c : Ctx) (called : List Nat) (f : Nat) (fd : Func) : List String :=
   let hasOut := fd.params.any ParamMode.isOut
   let needsTrampoline := hasOut && called.contains f
-  -- default-argument items are printed with the parameter list (trampoline targets drop the defaults)
-  let defaults := fd.items.filter fun it => match it.place with | .defaultArg _ => true | _ => false
+  -- parameter defaults are emitted unless the function is a trampoline target or takes parameters for globals
+  let noDefaults := noDefaultsWithImplicitParams && !(c.req f).isEmpty
+  let defaults := if noDefaults then [] else
+    fd.items.filter fun it => match it.place with | .defaultArg _ => true | _ => false
   let bodyItems := fd.items.filter fun it => match it.place with | .body _ => true | _ => false
   let inner :=
     fd.name ++ "(" ++ ",".intercalate (paramList c f fd needsTrampoline) ++ ")"
